@@ -12,3 +12,7 @@ mk("b-c03-key-helper", {"C03": "silent", "C02": "silent"}, [(B + "mpc/mpc_trunca
    (B + "mpc/mpc_truncate.rs", "#[typetag::serde]\nimpl CustomOperationBody for TruncateMPC2K {",
     "fn third_key(keys: &Node) -> Result<Node> {\n    keys.tuple_get(2)\n}\n\n#[typetag::serde]\nimpl CustomOperationBody for TruncateMPC2K {")],
    "benign: the key is taken through a helper (mask no longer resolvable -> the obligation disappears, nothing fires)", kind="benign")
+mk("b-c02-meta-nop-unannotated", {"C02": "silent", "C06": "silent"}, [(B + "optimizer/meta_operation_optimizer.rs",
+   "            Operation::A2B => {\n                let mut node = simple_node.clone();",
+   "            Operation::NOP if node.get_annotations()?.is_empty() => {\n                meta_deps[0].as_ref().map(|meta_dep| ProxyObjectWithNode {\n                    meta: meta_dep.meta.clone(),\n                    node: simple_node.clone(),\n                })\n            }\n            Operation::A2B => {\n                let mut node = simple_node.clone();")],
+   "benign twin of C02r2-1: getters see through a NOP only when it carries no annotation (no transfer is bypassed)", kind="benign")
